@@ -489,6 +489,7 @@ class ServeMpsInitSeg(MediaRequestBase):
             logging.warning('Media file not  found: mps=%s ppk=%d filename=%s',
                             mps_name, ppk, filename)
             return flask.make_response('File not found', 404)
+        flask.g.stream = period.stream
         return self.generate_init_segment(media, mode, options)
 
     def calculate_media_segment_index(self,
